@@ -613,7 +613,8 @@ class Check(PropertyCheck):
         return lst
 
     def known_template_collision(self) -> List[Violation]:
-        """corpus: a --template-dir with two names that differ only in case (known finding C18-template-case-collision)"""
+        """corpus (regression for 16ec2bc): a --template-dir with two names that differ only in case, built with two
+        shuffle seeds chosen so that BOTH listing orders of the pair occur"""
         tpl = {'more.css': 'a{}\n', 'MORE.css': 'b{}\n', 'other.js': '//\n'}
         want: Dict[bool, int] = {}
         for s in range(1, 200):
@@ -626,9 +627,8 @@ class Check(PropertyCheck):
         seeds = [0, want[True], want[False]]
         r = lib.run_impl_worker('c18_cli.py', {'cases': [case], 'seeds': seeds, 'jobs': 1})[0]
         self.evaluations += r['runs']
-        self.count('known_finding_corpus_runs', r['runs'])
+        self.count('template_case_collision_corpus_runs', r['runs'])
         if r['equal']:
-            self.notes.append('known finding C18-template-case-collision did NOT reproduce (fixed upstream?)')
             return []
         d = r['diff']
         return [Violation('oracle', 'two runs with the same --template-dir (names differing only in case) give different output trees: '
